@@ -3,6 +3,7 @@
 // invariant is also monitored in every other reader scenario).
 #include "driver.h"
 #include "gen.h"
+#include <algorithm>
 
 // ---------------------------------------------------------------- independent framing checker (DESIGN appendix E)
 
@@ -187,6 +188,31 @@ struct C12 : Scenario {
 			size_t n = e.type == 0xcc ? 12 + rng.below(6) : e.type == 0x41 ? 24 : 1 + rng.below(8);
 			for (size_t i = 0; i < n; ++i) e.data.push_back(rng.byte());
 			m.ext.insert(m.ext.begin() + (long) rng.below(m.ext.size() + 1), e);
+		}
+		if (m.level == 2 && rng.chance(1, 5)) {
+			// LHA for OS-9/68k writes level-2 headers whose length field does not count its own two bytes
+			m.os = 'K';
+			Bytes tmp; MemberLayout lay;
+			build_member(m, tmp, lay);
+			m.hdrlen = (int64_t) lay.hdr_len - 2;
+			for (auto &e : m.ext) e.auto_crc = false;   // (the real tool writes no common CRC; its position would shift)
+			m.ext.erase(std::remove_if(m.ext.begin(), m.ext.end(), [](const ExtHdr &e) { return e.type == 0; }), m.ext.end());
+			build_member(m, tmp = Bytes(), lay);
+			m.hdrlen = (int64_t) lay.hdr_len - 2;
+		}
+		if (m.level == 0 && m.kind == 'f' && m.method.compare(0, 3, "-pm") != 0 && rng.chance(1, 4)) {
+			// level-0 extended areas: Unix, OS-9/68k, OS-9 and unknown, with plausible and implausible lengths
+			static const uint8_t firsts[] = {'U', 'K', '9', '9', 'M', 0};
+			size_t n = rng.chance(1, 2) ? 12 + rng.below(12) : rng.below(30);
+			Bytes e(n);
+			for (auto &b : e) b = rng.byte();
+			if (n > 0) e[0] = firsts[rng.below(6)];
+			if (n > 1 && rng.chance(2, 3)) e[1] = 0;
+			if (n > 9 && rng.chance(2, 3)) e[9] = 0xcc;
+			if (n > 18 && rng.chance(1, 2)) { e[17] = e[1]; e[18] = e[2]; }
+			// never symlink type bits in a Unix-shaped area (the entry is a file; ground truth is not compared here anyway)
+			if (n >= 12 && (e[0] == 'U' || e[0] == 'K')) e[n - 5] &= 0x0f;
+			m.l0ext = e;
 		}
 		p.members.push_back(m);
 		if (rng.chance(1, 2)) {
